@@ -8,7 +8,11 @@ import tempfile
 sys.modules.setdefault("yahpo_gym", None)
 
 if "SYNETUNE_FOLDER" not in os.environ:
-    os.environ["SYNETUNE_FOLDER"] = tempfile.mkdtemp(prefix="verif_st_")
+    import atexit
+    import shutil
+    _d = tempfile.mkdtemp(prefix="verif_st_")
+    os.environ["SYNETUNE_FOLDER"] = _d
+    atexit.register(shutil.rmtree, _d, True)
 
 logging.disable(logging.CRITICAL)
 
